@@ -2,6 +2,7 @@ package composer
 
 import (
 	"fmt"
+	"slices"
 	"strconv"
 	"strings"
 )
@@ -98,8 +99,8 @@ func parseSingleConstraint(c string) ([]*constraint, error) {
 		return parseTildeConstraint(c[1:])
 	}
 
-	// Handle wildcard constraint (1.2.* or 1.x)
-	if strings.Contains(c, "*") || strings.Contains(c, "x") {
+	// Handle wildcard constraint (1.2.* or 1.x): the wildcard is a whole dot-separated component
+	if slices.ContainsFunc(strings.Split(c, "."), func(part string) bool { return part == "*" || part == "x" }) {
 		return parseWildcardConstraint(c)
 	}
 
